@@ -85,3 +85,19 @@ def tolist(a):
 
 def dtype_tol(dtype, tight=1e-10, loose=2e-4):
     return loose if np.dtype(dtype) in (np.dtype(np.complex64), np.dtype(np.float32)) else tight
+
+
+def relayout(x, k):
+    """Same values, other memory layout: k % 4 == 1 Fortran order, 2 transposed view of a C
+    array, 3 every-other-element view of a larger array, otherwise unchanged."""
+    k = int(k) % 4
+    if k == 1 and x.ndim >= 2:
+        return np.asfortranarray(x)
+    if k == 2 and x.ndim >= 2:
+        return np.ascontiguousarray(x.T).T
+    if k == 3 and x.ndim >= 1:
+        big = np.zeros(tuple(2 * n for n in x.shape), x.dtype)
+        sl = tuple(slice(None, None, 2) for _ in x.shape)
+        big[sl] = x
+        return big[sl]
+    return x
